@@ -186,11 +186,36 @@ static void laws(unsigned long long& unit)
 				if(!(fabsl(p - u) <= 0.3989423L * sqrtl(2.0L) * 1e-4L * 1.001L)) fail("laws", key, "gauss_quantile_off", "Phi((z-mu)/sigma) = " + mc::dec((double)p) + " for u = " + mc::dec((double)u));
 				else mc::maxi("gauss_cdf_error_over_allowed", (double)(fabsl(p - u) / (0.3989423L * sqrtl(2.0L) * 1e-4L)), key);
 			}
+	// Gaussian tails, down to the smallest uniforms a generator can deliver (2^-53, and 0 itself): judged in z, against the quantile of the
+	// probability the sampler actually forms, p = 2u-1 in binary64 (1+p is exact there), within the sqrt(2)*1e-4 of Inv_Erf
+	if(mc::mine(unit++))
+		for(ld u : {0.0L, 1.1102230246251565e-16L, 1e-15L, 1e-12L, 1e-9L, 1e-7L, 3e-7L, 1e-6L, 3e-6L, 1e-5L, 1e-4L, 1 - 1e-4L, 1 - 1e-5L, 1 - 3e-6L, 1 - 1e-6L, 1 - 3e-7L, 1 - 1e-7L, 1 - 1e-9L, 1 - 1e-12L, 1 - 1e-15L, 1 - 1.1102230246251565e-16L})
+		{
+			std::mt19937 g = mc::scripted_uniforms({u});
+			double z = 0, uc = mc::canonical_of(u);
+			std::string key = "Sample_Gauss(0,1),tail,u=" + mc::dec((double)u);
+			if(mc::library_exits([&]() { z = Sample_Gauss(g, 0.0, 1.0); })) { fail("laws", key, "terminated_process", "a generator state (uniform " + mc::dec(uc) + ") ended the process"); continue; }
+			g_cases++;
+			if(!std::isfinite(z)) { fail("laws", key, "not_finite", "returned " + mc::dec(z)); continue; }
+			double pd = 2.0 * uc - 1.0;
+			// within 2e-12 of the ends one ulp of p moves the quantile by more than the stated accuracy: sign and size only
+			if(std::fabs(pd) > 1 - 2e-12) { if(!(std::fabs(z) >= 6.9 && (z < 0) == (pd < 0))) fail("laws", key, "gauss_quantile_off", "uniform " + mc::dec(uc) + " next to the end of the unit interval gave z = " + mc::dec(z)); continue; }
+			// solve erf(x) = pd, i.e. erfc(-x) = 1+pd (lower half) or erfc(x) = 1-pd (upper half), by bisection in long double
+			ld q = pd < 0 ? (ld)(1.0 + pd) : (ld)(1.0 - pd), lo = 0, hi = 10;
+			for(int it = 0; it < 200; it++) { ld mid = (lo + hi) / 2; if(erfcl(mid) > q) lo = mid; else hi = mid; }
+			ld zref = sqrtl(2.0L) * (pd < 0 ? -lo : lo);
+			if(!(fabsl(z - zref) <= sqrtl(2.0L) * 1e-4L * 1.001L)) fail("laws", key, "gauss_quantile_off", "z = " + mc::dec(z) + " but the normal quantile of u is " + mc::dec((double)zref));
+			else mc::maxi("gauss_tail_z_error_over_allowed", (double)(fabsl(z - zref) / (sqrtl(2.0L) * 1e-4L)), key);
+		}
 	// inverse transform
 	if(mc::mine(unit++))
 	{
 		struct Cf { const char* name; std::function<double(double)> cdf; double lo, hi, pdfmax; };
-		std::vector<Cf> cfs = {{"uniform02", [](double x) { return x / 2; }, 0, 2, 0.5}, {"exp", cdf_exp, 0, 60, 0.5}, {"logistic", [](double x) { return 1 / (1 + std::exp(-x)); }, -40, 40, 0.25}};
+		std::vector<Cf> cfs = {{"uniform02", [](double x) { return x / 2; }, 0, 2, 0.5}, {"exp", cdf_exp, 0, 60, 0.5}, {"logistic", [](double x) { return 1 / (1 + std::exp(-x)); }, -40, 40, 0.25},
+								   // domains far narrower than any absolute tolerance, with a non-linear CDF (the accuracy is relative to the domain)
+								   {"square_on_2e-10", [](double x) { return (x / 2e-10) * (x / 2e-10); }, 0, 2e-10, 2 / 2e-10},
+								   {"square_on_1e-13_at_5", [](double x) { double t = (x - 5) / 9.0594198809412774e-14; return t * t; }, 5, 5 + 9.0594198809412774e-14, 2 / 9.0594198809412774e-14},
+								   {"cubic_on_3e-9", [](double x) { double t = x / 3e-9; return t * t * t; }, 0, 3e-9, 3 / 3e-9}};
 		for(auto& c : cfs)
 			for(int i = 0; i < 256; i++)
 			{
@@ -202,7 +227,8 @@ static void laws(unsigned long long& unit)
 				g_cases++;
 				double acc = 1e-10 * (c.hi - c.lo);
 				if(!(x >= c.lo && x <= c.hi)) fail("laws", key, "outside_domain", "x = " + mc::dec(x));
-				if(!(std::fabs(c.cdf(x) - mc::canonical_of(u)) <= c.pdfmax * acc * 1.01 + 4 * mc::U_)) fail("laws", key, "cdf_of_sample_not_u", "cdf(x) = " + mc::dec(c.cdf(x)) + " u = " + mc::dec(mc::canonical_of(u)));
+				double res = 2 * mc::U_ * 2 * std::max(std::fabs(c.lo), std::fabs(c.hi));	// resolution of the abscissa itself
+				if(!(std::fabs(c.cdf(x) - mc::canonical_of(u)) <= c.pdfmax * (acc + res) * 1.01 + 4 * mc::U_)) fail("laws", key, "cdf_of_sample_not_u", "cdf(x) = " + mc::dec(c.cdf(x)) + " u = " + mc::dec(mc::canonical_of(u)));
 			}
 	}
 	// rejection sampling: first trial on an m x m grid, second trial forced to accept
